@@ -1772,6 +1772,8 @@ impl KotoVm {
                         self.set_register(result, display_context.result().into());
                         Ok(())
                     }
+                    // A timeout needs to reach the caller as it is, it must not be catchable
+                    Err(error) if matches!(error.error, ErrorKind::Timeout(_)) => Err(error),
                     Err(_) => runtime_error!("failed to get display value"),
                 }
             }
@@ -1793,6 +1795,8 @@ impl KotoVm {
                         self.set_register(result, display_context.result().into());
                         Ok(())
                     }
+                    // A timeout needs to reach the caller as it is, it must not be catchable
+                    Err(error) if matches!(error.error, ErrorKind::Timeout(_)) => Err(error),
                     Err(_) => runtime_error!("failed to get display value"),
                 }
             }
